@@ -78,3 +78,27 @@ Qed.
 
 Example ex2_values : m2o ex2_s2 = [0;0;0;0; 0;2;3; 4; 5] /\ unreplaced_b ex2_o (cur ex2_s2) (m2o ex2_s2) [ex2_b1; ex2_b2] = true.
 Proof. vm_compute. split; reflexivity. Qed.
+
+(* C07's offsets_after against the map commit builds: "Ａ東ーー" with Ａ -> a (shrinks) and ーー -> ー (a later, non-empty
+   replacement behind it); a second batch on the result ("a東ー": 東 -> とう) shows the composition with the previous map *)
+From SudachiVerif Require Proofs.OffsetsLink Proofs.NormalizeBuffer Model.Normalize Proofs.PipelineFull.
+Definition l_t : list N := [65313; 26481; 12540; 12540]%N.
+Definition l_es : list Normalize.edit := [Normalize.mkE 0 1 [97%N]; Normalize.mkE 2 4 [12540%N]].
+Definition l_s0 := get (start_build the_cfg (PipelineFull.enc l_t)).
+Definition l_s1 := get (commit the_cfg l_s0 (NormalizeBuffer.tr_edits l_t l_es)).
+Definition l_t1 : list N := [97; 26481; 12540]%N.
+Definition l_es2 : list Normalize.edit := [Normalize.mkE 1 2 [12392; 12358]%N].
+Definition l_s2 := get (commit the_cfg l_s1 (NormalizeBuffer.tr_edits l_t1 l_es2)).
+
+Example l_hyps :
+  start_build the_cfg (PipelineFull.enc l_t) = Ok l_s0 /\ Normalize.apply_edits l_t l_es = Some l_t1 /\
+  commit the_cfg l_s0 (NormalizeBuffer.tr_edits l_t l_es) = Ok l_s1 /\
+  commit the_cfg l_s1 (NormalizeBuffer.tr_edits l_t1 l_es2) = Ok l_s2.
+Proof. vm_compute. repeat split; reflexivity. Qed.
+
+Example l_values :
+  Normalize.offsets_after l_t l_es = [0; 3; 6; 12]%N /\
+  map (fun p => nth p (m2o l_s1) 0) (mod_c2b (cur l_s1)) = [0; 3; 6; 12] /\
+  Normalize.offsets_after l_t1 l_es2 = [0; 1; 4; 4; 7]%N /\
+  map (fun p => nth p (m2o l_s2) 0) (mod_c2b (cur l_s2)) = [0; 3; 6; 6; 12].
+Proof. vm_compute. repeat split; reflexivity. Qed.
